@@ -695,6 +695,20 @@ def _iterdsl_programs(run, path, name, limit=None, seed=1, alt_sources=False, de
                 hrec["got_konst"] = g[2:].split(";S:", 1)[0]
                 return hrec["got_konst"] == exp
             ps.add(hbody, "K:" + hexp, hrec, accept=haccept)
+        # other spellings of the adapter closures (typed parameter / return type / function path), rotated over the chains
+        if alt_sources and r["chain"] and k_line % 2 == 1 and any(a["k"] in ("filter", "map", "filter_map", "flat_map", "skip_while", "take_while") for a in r["chain"]):
+            mode = 1 + (k_line // 2) % 3
+            sc = gi.case(r, spell=mode)
+            if sc is not None and sc[0] != body:
+                sbody, sexp, smodel = sc
+                srec = dict(rec, spelling=["", "typed parameter", "return type", "function path"][mode])
+
+                def saccept(g, exp=sexp, srec=srec):
+                    if not g.startswith("K:") or ";S:" not in g:
+                        return False
+                    srec["got_konst"] = g[2:].split(";S:", 1)[0]
+                    return srec["got_konst"] == exp
+                ps.add(sbody, "K:" + sexp, srec, accept=saccept)
         # the same chain from the other source kinds (Sources of IterDsl.tla): chains of depth <= 1, every fifth deeper one
         if alt_sources and "srcs" in r and (len(r["chain"]) <= 1 or (k_line % 8 == 0 and len(r["chain"]) == 2)):
             for kind in ("slice_ref", "array", "array_ref_ref", "iter_copied", "range", "range_incl", "chars", "repeat_take", "user_into", "user_iter"):
